@@ -171,6 +171,15 @@ def run(ck):
 
         asmk.k_check(ck, progs, impl, mod, icases, syms=True)
     batch(progs, expect, incbin)
+    # the known stale-@here case: a macro-like directive directly behind a statement that ends in an expression
+    kn = [AsmResult(r) for r in run_cases(harness, [asm_case("z80", text='@org $100\n ld a, 5 @label { "xx" @hex @here }:\n@dw xx%s\n' % sfx) for sfx in ("102", "100")], shards=1)]
+    ck.evaluations += 2
+    if not kn[0].ok and kn[1].ok:
+        ck.known_hit("generator-after-expression-reads-stale-here",
+                     '` ld a, 5 @label { "xx" @hex @here }:` at $100 defines xx100 at $102 (%s)' % kn[1].canon())
+    elif not kn[0].ok:
+        ck.violation("` ld a, 5 @label { \"xx\" @hex @here }:` at $100 defines neither xx102 nor xx100: %s" % kn[0].canon(),
+                     {"mode": "asm", "arch": "z80", "source": '@org $100\n ld a, 5 @label { "xx" @hex @here }:\n@dw xx102\n', "expected": "OK 3e050201"})
     # files larger than any read buffer (4096 / 8192 byte boundaries), in a smaller batch
     big = {"b1.bin": bytes(range(1, 6)), "k4.bin": bytes(i % 251 for i in range(4096)), "k4p.bin": bytes(i % 241 for i in range(4097)),
            "k12.bin": bytes(i % 239 for i in range(12289)), "k8.bin": bytes(i % 233 for i in range(8192))}
